@@ -375,10 +375,6 @@ impl Prop for C18 {
                         last_ok = Some((gtext.clone(), ltext.clone(), settings.clone()));
                         had_success = true;
                         touched = false;
-                        // logical time of the outputs: newer than every source
-                        clock += 10;
-                        set_mtime(&po, clock);
-                        set_mtime(&lo, clock);
                     } else {
                         o.class("build-failed");
                         if had_success {
@@ -409,6 +405,16 @@ impl Prop for C18 {
                         // after a failure the next build starts from whatever is there; forget the
                         // last successful state so that "unchanged" is judged against a success
                         last_ok = None;
+                    }
+                    // logical time of whatever outputs exist now: written by this build, i.e.
+                    // newer than every source so far (also after a partly failed build - the real
+                    // clock would say the same)
+                    clock += 10;
+                    if po.exists() {
+                        set_mtime(&po, clock);
+                    }
+                    if lo.exists() {
+                        set_mtime(&lo, clock);
                     }
                 }
             }
